@@ -835,7 +835,7 @@ def stress_unkeyed(chk, runs):
 # ----------------------------------------------------------------------------------------
 # stage C: live engine oracle
 # ----------------------------------------------------------------------------------------
-def oracle_schema(links=True, secured=False):
+def oracle_schema(links=True, secured=False, small=False):
     from harness.engine_util import demo_schema
 
     item = {
@@ -855,6 +855,8 @@ def oracle_schema(links=True, secured=False):
             "responses": {"200": {"description": "ok"}},
         }
     }
+    if small:  # the coverage phase sends ~20 requests per parameter: keep one parameter of each kind
+        item["get"]["parameters"] = [p for p in item["get"]["parameters"] if p["name"] in ("iid", "q", "api_key", "X-Over", "X-Canary", "session")]
     if secured:
         item["get"]["security"] = [{"key": []}]
     raw = demo_schema({"/items/{iid}": item}, links=links)
@@ -899,7 +901,7 @@ def live_once(chk, cfg, phase, *, workers=1, secured=False, max_examples=4, stat
     from schemathesis.generation import GenerationMode
     from schemathesis.specs.openapi.checks import ignored_auth
 
-    raw = oracle_schema(secured=secured)
+    raw = oracle_schema(secured=secured, small=(phase == "coverage" and chk.tier == "quick"))
     ov = make_override(cfg.get("override"))
     checks = [ignored_auth] if secured else None
 
@@ -918,6 +920,7 @@ def live_once(chk, cfg, phase, *, workers=1, secured=False, max_examples=4, stat
                            headers=dict(cfg.get("headers") or {}), auth=cfg.get("auth"), override=ov, unique_inputs=cfg.get("unique_inputs", False),
                            modes=list(GenerationMode), checks=checks, configure=configure, step_count=4)
     probes = probe_ids(evs)
+    declared_names = {p["name"] for p in raw["paths"]["/items/{iid}"]["get"]["parameters"]}
     canon_cfg = {"headers": cfg.get("headers"), "auth": cfg.get("auth") is not None, "override": cfg.get("override"), "unique_inputs": cfg.get("unique_inputs", False),
                  "sanitize": cfg.get("sanitize", True), "phase": phase, "workers": workers, "secured": secured}
     n_checked = 0
@@ -950,16 +953,16 @@ def live_once(chk, cfg, phase, *, workers=1, secured=False, max_examples=4, stat
             query = dict(parse_qsl(urlsplit(r["target"]).query, keep_blank_values=True))
             qall = parse_qsl(urlsplit(r["target"]).query, keep_blank_values=True)
             for name, val in cfg["override"]["query"].items():
-                if name in ("q", "r", "api_key") and [v for k, v in qall if k == name] != [val]:
+                if name in declared_names and [v for k, v in qall if k == name] != [val]:
                     chk.fail(f"query override {name}={val!r} not on the request in phase {phase}: {r['target']!r}", {"cfg": canon_cfg, "request": r["method"] + " " + r["target"]},
                              region=region_of(cfg, phase, "override-query", name))
             for name, val in cfg["override"]["headers"].items():
-                if name in ("X-Over", "X-Gen", "X-Canary") and name.lower() not in {k.lower() for k in (cfg.get("headers") or {})} and low.get(name.lower()) != val:
+                if name in declared_names and name.lower() not in {k.lower() for k in (cfg.get("headers") or {})} and low.get(name.lower()) != val:
                     chk.fail(f"header override {name}={val!r} not on the request in phase {phase}: got {low.get(name.lower())!r}", {"cfg": canon_cfg, "request": r["method"] + " " + r["target"]},
                              region=region_of(cfg, phase, "override-header", name))
             cookies = dict(p.strip().split("=", 1) for p in low.get("cookie", "").split(";") if "=" in p)
             for name, val in cfg["override"]["cookies"].items():
-                if name in ("c", "session") and cookies.get(name) != val:
+                if name in declared_names and cookies.get(name) != val:
                     chk.fail(f"cookie override {name}={val!r} not on the request in phase {phase}: got {low.get('cookie')!r}", {"cfg": canon_cfg, "request": r["method"] + " " + r["target"]},
                              region=region_of(cfg, phase, "override-cookie", name))
             for name, val in cfg["override"]["path_parameters"].items():
@@ -1007,11 +1010,20 @@ def stage_c(chk: core.Check, budget: int):
         runs.append(({"headers": {"X-Canary": "CAN"}}, ph, 1, True))
     runs.append(({"headers": {"X-Canary": "CAN"}, "auth": ("u", "p")}, "fuzzing", 3, False))
     if chk.tier == "quick":
-        head = runs[:0]
-        # every phase of every config is too slow for the quick tier: all phases of a rotating subset + all F-regions once
-        pick = [r for i, r in enumerate(runs) if (i + chk.seed) % 2 == 0 or r[3]]
-        runs = head + pick
-    runs = runs[:budget] if chk.tier == "quick" else runs
+        # every phase of every config is too slow for the quick tier: two phases per configuration, rotating with the seed
+        # (the F-region witnesses are replayed in their own phase at the end of every run)
+        pick = []
+        others = ["examples", "fuzzing", "stateful"]
+        for i, r in enumerate(runs):
+            ci = i // 4
+            k = ci + chk.seed
+            want = ["coverage", others[k % 3]] if k % 3 == 0 else [others[k % 3], others[(k + 1) % 3]]
+            if r[3]:
+                if r[1] != "coverage" or chk.seed % 2 == 0:
+                    pick.append(r)
+            elif r[2] > 1 or r[1] in want:
+                pick.append(r)
+        runs = pick[: budget + 6]
     for cfg, ph, workers, secured in runs:
         cfg = dict(cfg)
         cfg.setdefault("headers", {})
@@ -1063,7 +1075,7 @@ def provider_live(chk, stats):
                     case.headers = case.headers or {}
                     case.headers["X-Token"] = data
 
-        raw = oracle_schema()
+        raw = oracle_schema(small=chk.tier == "quick")
         evs, reqs = run_engine(raw, None, phases=["examples", "coverage", "fuzzing", "stateful"], workers=workers, max_examples=3, seed=1, configure=configure, step_count=3)
         per_key = Counter(k for k, _ in fetches)
         missing = [r["method"] + " " + r["target"] for r in reqs if not any(k.lower() == "x-token" and v == "TKN" for k, v in r["headers"])]
